@@ -253,6 +253,10 @@ pub struct RepoHandle {
 }
 
 impl RepoHandle {
+    /// Repository options of every harness repository: never use the local rustic cache (`~/.cache/rustic`).
+    pub fn default_opts() -> RepositoryOptions {
+        RepositoryOptions::default().no_cache(true)
+    }
     pub fn backends(&self) -> RepositoryBackends {
         RepositoryBackends::new(
             Arc::new(self.be.clone()),
@@ -263,7 +267,7 @@ impl RepoHandle {
     pub fn init(be: MemBackend, hot: Option<MemBackend>, cfg: &ConfigOptions) -> RusticResult<(Self, Repository<OpenStatus>)> {
         let key = MasterKey::new();
         let h = Self { be, hot, key };
-        let repo = Repository::new(&RepositoryOptions::default(), &h.backends())?;
+        let repo = Repository::new(&Self::default_opts(), &h.backends())?;
         let repo = repo.init(&Credentials::Masterkey(h.key.clone()), &KeyOptions::default(), cfg)?;
         Ok((h, repo))
     }
@@ -273,7 +277,7 @@ impl RepoHandle {
     /// Open again (fresh index, fresh config) — needed between commands: the index of an opened repository is
     /// not refreshed by a backup.
     pub fn open(&self) -> RusticResult<Repository<OpenStatus>> {
-        self.open_with(&RepositoryOptions::default())
+        self.open_with(&Self::default_opts())
     }
 }
 
